@@ -118,7 +118,7 @@ PROPS = {
     },
     "C19": {
         "controls": ["CLI-1"],
-        "rules": [("CLI-1", cli.cli1), ("CLI-4", cli.cli4), ("TAB-7", cli.tab7), ("CLI-6", r5.cli6), ("CLI-7", r5.cli7), ("CLI-9", r5.cli9), ("CLI-10", r5.cli10), ("CLI-12", r5.cli12)],
+        "rules": [("CLI-1", cli.cli1), ("CLI-4", cli.cli4), ("TAB-7", cli.tab7), ("CLI-6", r5.cli6), ("CLI-7", r5.cli7), ("CLI-9", r5.cli9), ("CLI-10", r5.cli10), ("CLI-12", r5.cli12), ("CLI-14", r5.cli14), ("CLI-16", r5.cli16)],
         "explanation": "Decides the wiring and file-format clauses of C19: no call (lib, bin) passes same-typed arguments crosswise to each other's parameters "
                        "(names of arguments vs parameters); in `asca run` the four components of get_input reach asca::run's parameters of the same role and the "
                        "value printed / written is the Ok payload of that call joined by LINE_ENDING; writers and readers of .rsca/.alias/.wsca use the same sigils "
@@ -127,7 +127,7 @@ PROPS = {
         "assumptions": ["argument and parameter names are meaningful (crossed-names detector: fires only on a crossing, never on merely different names)"],
     },
     "C20": {
-        "rules": [("CLI-2", cli.cli2), ("CLI-3", cli.cli3), ("CLI-5", cli.cli5), ("CLI-8", r5.cli8), ("CLI-11", r5.cli11), ("CLI-13", r5.cli13)],
+        "rules": [("CLI-2", cli.cli2), ("CLI-3", cli.cli3), ("CLI-5", cli.cli5), ("CLI-8", r5.cli8), ("CLI-11", r5.cli11), ("CLI-13", r5.cli13), ("CLI-15", r5.cli15), ("CLI-16", r5.cli16)],
         "explanation": "Decides the cycle, filter and stage-order clauses of C20: Parser::parse returns Ok only after top-level loops that check every `%tag` reference "
                        "for existence and for cycles (detector inserts each visited tag in a set and returns on a repeat), every config slice given to the five "
                        "functions that follow `from` recursively comes from get_config = Parser::parse, and ASCAConfig literals with a reference are built only in "
